@@ -80,6 +80,25 @@ def gen_cert(r, idx, rich):
             continue
         seen.add(norm)
         idents.append((ent, norm))
+    if idx % 6 == 2:
+        # a wildcard together with names it covers and names it does not (apex, one label below, two labels below), in every order
+        base = 'w%d.example.org' % idx
+        fam = ['*.' + base, base, 'www.' + base, 'a.b.' + base, '*.b.' + base]
+        r.shuffle(fam)
+        fam = fam[:r.randint(3, 5)]
+        if ('*.' + base) not in fam:
+            fam.insert(r.randint(0, len(fam)), '*.' + base)
+        if ('www.' + base) not in fam:
+            fam.append('www.' + base)
+        if idx % 12 == 2:
+            # the covered name after the wildcard
+            fam.remove('www.' + base)
+            fam.append('www.' + base)
+        for v in fam:
+            norm = ('dns', T.expected_alabel(v))
+            if norm not in seen:
+                seen.add(norm)
+                idents.append(({'dns': v, 'challenge': 'dns-01' if v.startswith('*.') else r.choice(['http-01', 'dns-01', 'tls-alpn-01'])}, norm))
     keys = list(ATTRS)
     mode = r.choice(['none', 'single', 'pair', 'random', 'all'] if rich else ['none', 'single', 'pair'])
     if mode == 'none':
@@ -105,6 +124,9 @@ def gen_cert(r, idx, rich):
 def run_case(case):
     certs = case['certs']
     plan = {'default': {'lifetimes_s': [100, LONG], 'chain_lens': [2]}}
+    if case.get('reuse_valid'):
+        # like Boulder within the authorization lifetime: the renewal gets the authorizations validated for the first issuance back
+        plan['default']['reuse_valid_authz'] = True
     if case.get('forget'):
         # the CA forgets the account when the first renewal asks for its order: re-registration, then the order again
         plan['faults'] = [{'kind': 'newOrder', 'attempt_from': 4, 'action': 'forget_account', 'max_fires': 1, 'id': 'forget'}]
@@ -143,6 +165,7 @@ def run_case(case):
         return all(succ.get(c['name'], 0) >= 2 for c in certs)
     run = S.run_scenario('C01', 's%d' % case['i'], cfg, plan, stop, timeout=120, pre=pre)
     res = {'case': case, 'problems': [], 'orders': 0, 'csrs': 0, 'keys_matched': 0}
+    res['orders_with_reused_valid_authorizations'] = len([r_ for r_ in run.ca_log if (r_.get('extra') or {}).get('reused_authz') is not None])
     try:
         if run.rc is not None:
             res['infra'] = 'daemon ended (rc=%s): %s' % (run.rc, run.stderr[-300:])
@@ -254,7 +277,7 @@ def gen(tier, r):
             c['key_type'] = kt
             certs.append(c)
             idx += 1
-        cases.append({'i': i, 'certs': certs, 'forget': i % 3 == 1})
+        cases.append({'i': i, 'certs': certs, 'forget': i % 3 == 1, 'reuse_valid': i % 2 == 0})
     return cases
 
 
@@ -270,6 +293,7 @@ def run(tier):
             chk.inconclusive.append(res['infra'])
         chk.count('new_orders_checked', res['orders'])
         chk.count('csrs_checked', res['csrs'])
+        chk.count('orders_with_reused_valid_authorizations', res.get('orders_with_reused_valid_authorizations', 0))
         chk.count('key_files_matched_to_csr', res['keys_matched'])
         chk.count('certificates_incomplete', len(res.get('incomplete', [])))
         for c in res['case']['certs']:
